@@ -590,7 +590,7 @@ def run_C08(ctx):
 SPECS["C08"] = dict(
     level="proof",
     manifest=dict(
-        text="Machine-checked theorems (Props/C08.v, closed under the global context): finish is emitted once and last by Myers and LCS for every clock; Replace over ANY inner hook is a pure transducer of call lists (what reaches the inner hook is replace_trace, in order; an inner failure propagates); Compact emits nothing before finish and then the cleaned ops followed by finish; NoFinishHook forwards everything but finish; the default replace is delete then insert. The model has no error channel, so 'a hook error aborts the diff unchanged' is decided on the real code by fault enumeration: a recording hook failing at EVERY call index k, for 3 algorithms x 7 hook stacks x {no deadline, clock expiring at probe 0/1/2}, must log exactly k+1 calls and return the injected error.",
+        text="Machine-checked theorems (Props/C08.v, closed under the global context): finish is emitted once and last by Myers and LCS for every clock; Replace over ANY inner hook is a pure transducer of call lists (what reaches the inner hook is replace_trace, in order; an inner failure propagates); Compact emits nothing before finish and then the cleaned ops followed by finish; NoFinishHook forwards everything but finish; the default replace is delete then insert. The model has no error channel, so 'a hook error aborts the diff unchanged' is decided on the real code by fault enumeration: a recording hook failing at EVERY call index k, for 3 algorithms x 10 hook stacks x {no deadline, clock expiring at probe 0/1/2}, must log exactly k+1 calls and return the injected error. Also proved: Compact under ANY body of events without a finish, replace events included, shows the wrapped hook nothing before finish and then the cleaned-up ops and exactly one finish (c08_compact_hook_events), and its composition with Replace on the outside (c08_replace_over_compact).",
         note='Trusted: Coq 8.16.1 kernel; extraction with ExtrOcamlBasic only; OCaml driver and Rust harness glue; the tie of the hand-written model to /repo is the correspondence check (differential testing on the generated inputs, rebuilt from the working tree every run), not a proof about the Rust source. usize wrap-around is not modelled.',
         technique='Coq proof of the transducer structure + exhaustive fault injection at every hook call index on the real code',
     ),
@@ -703,7 +703,7 @@ def run_C10(ctx):
 SPECS["C10"] = dict(
     level="proof",
     manifest=dict(
-        text="Machine-checked theorems (Props/C10.v, closed under the global context): for ANY loosely valid non-empty script (not only algorithm output) Compact's cleanup yields a valid non-empty script with exactly the same numbers of deleted, inserted and equal items, terminates within the model's fuel (inner loops by a weight measure, outer loop by the lexicographic measure), does not panic when Insert indices are not too small (InsLow; exact input qualifies), the Delete slide arms are dead code, and as a hook it emits nothing before finish; Replace alone turns any strong raw walk into index-exact, strictly alternating ops with the same counts and finish last, its debug assertions unreachable; with the verification-only repair switch Compact keeps indices exact. Normal form (insert_latest) through both adapters is checked by the extracted checker on all valid scripts of small pairs.",
+        text="Machine-checked theorems (Props/C10.v, closed under the global context): for ANY loosely valid non-empty script (not only algorithm output) Compact's cleanup yields a valid non-empty script with exactly the same numbers of deleted, inserted and equal items, terminates within the model's fuel (inner loops by a weight measure, outer loop by the lexicographic measure), does not panic when Insert indices are not too small (InsLow; exact input qualifies), the Delete slide arms are dead code, and as a hook it emits nothing before finish; Replace alone turns any strong raw walk into index-exact, strictly alternating ops with the same counts and finish last, its debug assertions unreachable; with the verification-only repair switch Compact keeps indices exact; a Replace adapter is back in its initial state after ANY completed finish, so one adapter can serve several diffs, and fed the same script twice it makes the same calls twice (c10_replace_finish_resets, c10_replace_twice_same). Normal form (insert_latest) through both adapters is checked by the extracted checker on all valid scripts of small pairs.",
         note='Trusted: Coq 8.16.1 kernel; extraction with ExtrOcamlBasic only; OCaml driver and Rust harness glue; the tie of the hand-written model to /repo is the correspondence check (differential testing on the generated inputs, rebuilt from the working tree every run), not a proof about the Rust source. usize wrap-around is not modelled.',
         technique='Coq proof (12 zipper rewrite arms, termination measures, Replace state invariant) + correspondence on all valid scripts of small pairs + verified checker',
     ),
